@@ -855,14 +855,21 @@ class StatusReactor(PacketReactor):
                 ping_packet.time = int(1000 * timeit.default_timer())
                 self.connection.write_packet(ping_packet)
             else:
-                self.connection.disconnect()
+                self._disconnect()
             self.handle_status(status_dict)
 
         elif packet.packet_name == "ping":
             if self.do_ping:
                 now = int(1000 * timeit.default_timer())
-                self.connection.disconnect()
+                self._disconnect()
                 self.handle_ping(now - packet.time)
+
+    def _disconnect(self):
+        with self.connection._write_lock:
+            # Unless the user has disconnected and started a new connection
+            # (with a new reactor) in the meantime:
+            if self.connection.reactor is self:
+                self.connection.disconnect()
 
     def handle_status(self, status_dict):
         print(status_dict)
@@ -880,7 +887,8 @@ class PlayingStatusReactor(StatusReactor):
         # under the write lock, and only if nobody has called disconnect()
         # in the meantime; otherwise that disconnect() would be lost.
         with self.connection._write_lock:
-            if self.connection.connected:
+            if self.connection.connected and \
+                    self.connection.reactor is self:
                 super(PlayingStatusReactor, self).react(packet)
 
     def handle_status(self, status):
